@@ -15,7 +15,7 @@ def build_pml_campaign(tier, sd):
     rnd = random.Random(sd * 41 + 6)
     cp = campaign.Campaign("pml", tier)
     for c in directed.charts():
-        if has_fault(c) or c.binding == "late" or c.max_delay() > 0:
+        if has_fault(c) or c.binding == "late" or c.max_delay() > 0 or c.arrays:
             continue
         cid = cp.add_chart(c)
         c.tags.append("D:" + c.name)
@@ -48,7 +48,7 @@ def build_pml_campaign(tier, sd):
     n = 0
     while n < nrand:
         c = rc.chart()
-        if has_fault(c) or c.binding == "late":
+        if has_fault(c) or c.binding == "late" or c.arrays:
             continue
         n += 1
         cid = cp.add_chart(c)
